@@ -14,6 +14,12 @@ package py
 //@ spec raisesExc(err error, t *Type) bool = is(err, *Exception) && err.(*Exception).Base == t
 //@ spec isBoolVal(r Object, b bool) bool = is(r, Bool) && (r.(Bool) <==> b)
 
+// ---- immutable heap components: written only while the object is being constructed (checked by SSA scan) ----
+
+//@ immutable Slice.Start Slice.Stop Slice.Step
+//@ immutable Exception.Base
+//@ immutable ghost bigval
+
 // ---- global invariants (state established by package init; no non-init function writes these variables) ----
 
 //@ global-invariant bools: True && !False
